@@ -33,8 +33,10 @@ Resolves == Accepted(prog)       \* the denotation is defined for accepted progr
 
 Label == IF Fam = "annots" THEN (CHOOSE x \in AnnotsLabelled : x.p = prog).l ELSE <<>>
 
+Idx == IF Fam = "file" THEN CHOOSE i \in 1..Len(FilePrograms) : FilePrograms[i] = prog ELSE 0
+
 PrintCase ==
-  IF ~Resolves THEN PrintT(<<"CASE", ToJson([prog |-> prog, label |-> Label, defined |-> FALSE, paths |-> <<>>, comps |-> <<>>])>>)
-  ELSE PrintT(<<"CASE", ToJson([prog |-> prog, label |-> Label, defined |-> TRUE, paths |-> Paths(prog),
+  IF ~Resolves THEN PrintT(<<"CASE", ToJson([idx |-> Idx, prog |-> prog, label |-> Label, defined |-> FALSE, paths |-> <<>>, comps |-> <<>>])>>)
+  ELSE PrintT(<<"CASE", ToJson([idx |-> Idx, prog |-> prog, label |-> Label, defined |-> TRUE, paths |-> Paths(prog),
                                 comps |-> LET S == {Component(prog, x) : x \in RefDecls(prog)} IN SetSeq(S)])>>)
 =============================================================================
